@@ -8,8 +8,8 @@ Import ListNotations.
    A resource is a folder or a Python file  p/n.py ; the file name "__init__" is the reserved identifier 0.
    Files that are not *.py play no role in the anchored code and are not part of a layout. *)
 Notation ident := N (only parsing).
-Notation path := (list N).
-Notation dotted := (list N).
+Notation path := (list N) (only parsing).
+Notation dotted := (list N) (only parsing).
 
 Definition INIT : N := 0%N.
 
@@ -17,7 +17,7 @@ Inductive res :=
 | RDir (p : path)
 | RPy (p : path) (n : N).
 
-Notation layout := (list res).
+Notation layout := (list res) (only parsing).
 
 Fixpoint path_eqb (a b : path) : bool :=
   match a, b with
